@@ -1,10 +1,35 @@
 //! Canonical text encoding of replicated values (the line protocol shared with the Lean
 //! driver, see lean/RedisVerif/Driver/Codec.lean) and a neutral mirror type `MRv` from
-//! which REAL `ReplicatedValue`s are built (serde) and into which they are read back
-//! (serde again, so private fields such as `GCounter::counts` are observed too).
-use redis_sim::replication::state::ReplicatedValue;
+//! which REAL `ReplicatedValue`s are built and into which they are read back.
+//! Payload-bearing parts (`LwwRegister<SDS>` in `Lww` and `Hash`) go through the PUBLIC fields, so
+//! payload BYTES are observed exactly and the mirror does not depend on how `SDS` serialises.
+//! The counters / sets / vector clocks have crate-private fields and are read through serde_json;
+//! if their serialised shape changes the mirror does not panic: it records a
+//! `<Cxx>:mirror:shape-changed` case (see `mirror_error`, reported by `Out::finish`) and continues
+//! with a placeholder — a change of the serialised shape of a replicated value is itself a
+//! persistence / wire compatibility event.
+use redis_sim::redis::SDS;
+use redis_sim::replication::lattice::{LamportClock, LwwRegister, ReplicaId, VectorClock};
+use redis_sim::replication::state::{CrdtValue, ReplicatedValue};
 use serde_json::{json, Map, Value};
 use std::collections::{BTreeMap, BTreeSet};
+use std::sync::Mutex;
+
+static MIRROR_ERRORS: Mutex<Vec<(String, String)>> = Mutex::new(Vec::new());
+
+/// record that the serialised shape of (a part of) a replicated value is not what the mirror knows
+pub fn mirror_error(what: &str, json: String) {
+    let mut v = MIRROR_ERRORS.lock().unwrap();
+    if v.len() < 20 && !v.iter().any(|(w, _)| w == what) {
+        let mut j = json;
+        j.truncate(600);
+        v.push((what.to_string(), j));
+    }
+}
+
+pub fn take_mirror_errors() -> Vec<(String, String)> {
+    std::mem::take(&mut *MIRROR_ERRORS.lock().unwrap())
+}
 
 pub fn hex(b: &[u8]) -> String {
     let mut s = String::with_capacity(1 + 2 * b.len());
@@ -120,17 +145,96 @@ impl MRv {
         })
     }
 
-    /// build the REAL value
+    /// build the REAL value: registers through the public fields, the rest through serde_json
     pub fn to_real(&self) -> ReplicatedValue {
-        serde_json::from_value(self.to_json()).expect("MRv -> ReplicatedValue")
+        let clock = |t: u64, r: u64| LamportClock { time: t, replica_id: ReplicaId(r) };
+        let lww = |l: &MLww| LwwRegister { value: l.v.as_ref().map(|b| SDS::new(b.clone())), timestamp: clock(l.t, l.r), tombstone: l.tomb };
+        let crdt = match &self.crdt {
+            MCrdt::Lww(l) => CrdtValue::Lww(lww(l)),
+            MCrdt::H(h) => CrdtValue::Hash(h.iter().map(|(k, l)| (k.clone(), lww(l))).collect()),
+            _ => {
+                let j = self.to_json()["crdt"].clone();
+                match serde_json::from_value::<CrdtValue>(j.clone()) {
+                    Ok(c) => c,
+                    Err(e) => {
+                        mirror_error("build-crdt", format!("{} <- {}", e, j));
+                        CrdtValue::Lww(LwwRegister { value: None, timestamp: clock(self.t, self.r), tombstone: true })
+                    }
+                }
+            }
+        };
+        let vector_clock = self.vc.as_ref().and_then(|m| {
+            let j = json!({"clocks": jmap(m)});
+            match serde_json::from_value::<VectorClock>(j.clone()) {
+                Ok(v) => Some(v),
+                Err(e) => {
+                    mirror_error("build-vector-clock", format!("{} <- {}", e, j));
+                    None
+                }
+            }
+        });
+        ReplicatedValue { crdt, vector_clock, expiry_ms: self.exp, timestamp: clock(self.t, self.r), replication_factor: self.rf }
     }
 
-    /// read a REAL value back (including private fields)
+    /// read a REAL value back: payload bytes through the public fields, private counters / sets
+    /// through serde_json (tolerantly)
     pub fn from_real(rv: &ReplicatedValue) -> MRv {
-        let j = serde_json::to_value(rv).expect("ReplicatedValue -> json");
-        Self::from_json(&j)
+        let mlww = |r: &LwwRegister<SDS>| MLww { v: r.value.as_ref().map(|s| s.as_bytes().to_vec()), t: r.timestamp.time, r: r.timestamp.replica_id.0, tomb: r.tombstone };
+        let crdt = match &rv.crdt {
+            CrdtValue::Lww(r) => MCrdt::Lww(mlww(r)),
+            CrdtValue::Hash(h) => MCrdt::H(h.iter().map(|(k, r)| (k.clone(), mlww(r))).collect()),
+            other => {
+                let j = serde_json::to_value(other).unwrap_or(Value::Null);
+                match Self::try_crdt(&j) {
+                    Some(c) => c,
+                    None => {
+                        mirror_error("read-crdt", j.to_string());
+                        MCrdt::Lww(MLww { v: None, t: 0, r: 0, tomb: true })
+                    }
+                }
+            }
+        };
+        let vc = rv.vector_clock.as_ref().and_then(|v| {
+            let j = serde_json::to_value(v).unwrap_or(Value::Null);
+            match Self::try_umap(&j["clocks"]) {
+                Some(m) => Some(m),
+                None => {
+                    mirror_error("read-vector-clock", j.to_string());
+                    None
+                }
+            }
+        });
+        MRv { crdt, vc, exp: rv.expiry_ms, t: rv.timestamp.time, r: rv.timestamp.replica_id.0, rf: rv.replication_factor }
     }
 
+    fn try_umap(v: &Value) -> Option<BTreeMap<u64, u64>> {
+        v.as_object()?.iter().map(|(k, v)| Some((k.parse().ok()?, v.as_u64()?))).collect()
+    }
+
+    /// the counter / set variants from their serde_json form (`{"GCounter": {...}}` …)
+    fn try_crdt(j: &Value) -> Option<MCrdt> {
+        let c = j.as_object()?;
+        let (tag, body) = c.iter().next()?;
+        Some(match tag.as_str() {
+            "GCounter" => MCrdt::G(Self::try_umap(&body["counts"])?),
+            "PNCounter" => MCrdt::P(Self::try_umap(&body["positive"]["counts"])?, Self::try_umap(&body["negative"]["counts"])?),
+            "GSet" => MCrdt::S(body["elements"].as_array()?.iter().map(|s| s.as_str().map(|x| x.to_string())).collect::<Option<_>>()?),
+            "ORSet" => MCrdt::O(
+                body["elements"]
+                    .as_object()?
+                    .iter()
+                    .map(|(k, tags)| {
+                        let ts: Option<BTreeSet<(u64, u64)>> = tags.as_array()?.iter().map(|t| Some((t["replica_id"].as_u64()?, t["sequence"].as_u64()?))).collect();
+                        Some((k.clone(), ts?))
+                    })
+                    .collect::<Option<_>>()?,
+                Self::try_umap(&body["next_sequence"])?,
+            ),
+            _ => return None,
+        })
+    }
+
+    #[allow(dead_code)]
     pub fn from_json(j: &Value) -> MRv {
         fn umap(v: &Value) -> BTreeMap<u64, u64> {
             v.as_object()
